@@ -460,17 +460,19 @@ func (p *Parser) parseAccountDirective(startPos Position) ast.Directive {
 
 	accountName := p.current.Value
 	accountPos := p.current.Pos
+	accountEnd := p.current.End
 	p.advance()
 
 	if p.current.Type == TokenText {
 		accountName += " " + p.current.Value
+		accountEnd = p.current.End
 		p.advance()
 	}
 
 	dir := ast.AccountDirective{
 		Account: ast.Account{
 			Name:  accountName,
-			Range: ast.Range{Start: toASTPosition(accountPos)},
+			Range: ast.Range{Start: toASTPosition(accountPos), End: toASTPosition(accountEnd)},
 		},
 		Range: ast.Range{Start: toASTPosition(startPos)},
 	}
@@ -502,7 +504,7 @@ func (p *Parser) parseCommodityDirective(startPos Position) ast.Directive {
 		symbol := p.current.Value
 		dir.Commodity = ast.Commodity{
 			Symbol: symbol,
-			Range:  ast.Range{Start: toASTPosition(p.current.Pos)},
+			Range:  ast.Range{Start: toASTPosition(p.current.Pos), End: toASTPosition(p.current.End)},
 		}
 		p.advance()
 
@@ -519,7 +521,7 @@ func (p *Parser) parseCommodityDirective(startPos Position) ast.Directive {
 		if p.current.Type == TokenCommodity || p.current.Type == TokenText {
 			dir.Commodity = ast.Commodity{
 				Symbol: p.current.Value,
-				Range:  ast.Range{Start: toASTPosition(p.current.Pos)},
+				Range:  ast.Range{Start: toASTPosition(p.current.Pos), End: toASTPosition(p.current.End)},
 			}
 			dir.Format = number + " " + p.current.Value
 			p.advance()
@@ -527,7 +529,7 @@ func (p *Parser) parseCommodityDirective(startPos Position) ast.Directive {
 	case TokenText:
 		dir.Commodity = ast.Commodity{
 			Symbol: p.current.Value,
-			Range:  ast.Range{Start: toASTPosition(p.current.Pos)},
+			Range:  ast.Range{Start: toASTPosition(p.current.Pos), End: toASTPosition(p.current.End)},
 		}
 		p.advance()
 	}
@@ -591,7 +593,7 @@ func (p *Parser) parsePriceDirective(startPos Position) ast.Directive {
 	if p.current.Type == TokenCommodity || p.current.Type == TokenText {
 		dir.Commodity = ast.Commodity{
 			Symbol: p.current.Value,
-			Range:  ast.Range{Start: toASTPosition(p.current.Pos)},
+			Range:  ast.Range{Start: toASTPosition(p.current.Pos), End: toASTPosition(p.current.End)},
 		}
 		p.advance()
 	} else {
